@@ -167,17 +167,19 @@ class Ctx(object):
         self.requirements.extend(part['req'])
 
     # ---- parallel map --------------------------------------------------
-    def pmap(self, fn, tasks, chunk=1, jobs=None):
+    def pmap(self, fn, tasks, chunk=1, jobs=None, fresh=False):
         '''
         Run fn(subctx, task) for every task in forked workers; counters, sets,
         samples and violations of the sub-contexts are merged into self.
         Returns the list of fn's return values (in task order).
+        fresh=True: every chunk runs in a process forked from the parent for it alone, so that process-wide state the
+        code under test leaves behind (caches, parser state) cannot flow from one chunk into the next.
         '''
         tasks = list(tasks)
         chunks = [tasks[i:i + chunk] for i in range(0, len(tasks), chunk)]
         jobs = jobs or NCPU
         results = [None] * len(chunks)
-        if jobs <= 1 or len(chunks) <= 1:
+        if (jobs <= 1 or len(chunks) <= 1) and not fresh:
             for i, ch in enumerate(chunks):
                 _, part, res = _run_chunk((self, fn, i, ch))
                 self.merge(part)
@@ -186,7 +188,7 @@ class Ctx(object):
             global _POOL_ARGS
             _POOL_ARGS = (self, fn, chunks)
             mp = multiprocessing.get_context('fork')
-            with mp.Pool(min(jobs, len(chunks)), initializer=_worker_init) as pool:
+            with mp.Pool(min(jobs, len(chunks)), initializer=_worker_init, maxtasksperchild=1 if fresh else None) as pool:
                 failure = None
                 for i, part, res in pool.imap_unordered(_run_chunk_idx,
                                                         range(len(chunks))):
